@@ -469,6 +469,18 @@ func (w *world) Run(t *rt.Tape, trace bool) *core.Result {
 			sentBits[i] = make([]uint64, (n+63)/64)
 			recvBits[i] = make([]uint64, (n+63)/64)
 		}
+		// the form of each batch: all label form or all packed-bit form (the scenario), or - one
+		// case in three with several batches - mixed on one sender/receiver pair
+		form := make([]bool, nb)
+		for i := range form {
+			form[i] = bits
+		}
+		if nb > 1 && t.Choose(rt.SGen, 3) == 0 {
+			for i := range form {
+				form[i] = t.Choose(rt.SGen, 2) == 0
+			}
+			smp.Scenario += fmt.Sprintf(" - forms mixed on one pair (packed-bit form per batch: %v)", form)
+		}
 		var delta ot.Label
 		body = func() {
 			l := mk()
@@ -488,7 +500,7 @@ func (w *world) Run(t *rt.Tape, trace bool) *core.Result {
 				}
 				delta = s.Delta
 				for i, n := range batches {
-					if bits {
+					if form[i] {
 						err = s.SendBits(n, sentBits[i])
 					} else {
 						sent[i], err = s.Send(n, mal)
@@ -516,7 +528,7 @@ func (w *world) Run(t *rt.Tape, trace bool) *core.Result {
 					return
 				}
 				for i, n := range batches {
-					if bits {
+					if form[i] {
 						packed := make([]uint64, (n+63)/64)
 						for j, c := range choices[i] {
 							if c {
@@ -541,7 +553,7 @@ func (w *world) Run(t *rt.Tape, trace bool) *core.Result {
 				return
 			}
 			for i, n := range batches {
-				if bits {
+				if form[i] {
 					d := uint64(delta.Bit(0))
 					for j := 0; j < n; j++ {
 						sb := sentBits[i][j/64] >> (j % 64) & 1
